@@ -229,9 +229,9 @@ def print_axioms(module, theorems):
 # implementation side
 # ------------------------------------------------------------------------------------------
 
-def copy_src():
+def copy_src(sub="src"):
     """copy the repository working tree (sources only) into the scratch dir"""
-    d = os.path.join(scratch(), "src")
+    d = os.path.join(scratch(), sub)
     if not os.path.isdir(d):
         r = run(["rsync", "-a", "--exclude", "*.o", "--exclude", "/main", "--exclude", ".git",
                  "--exclude", "/tests", "--exclude", "/docs", "--exclude", "/vscode-extension",
@@ -245,7 +245,7 @@ def copy_src():
 def build_impl(sanitize=False):
     """out-of-tree build of the interpreter from the working tree with -DCB_VERIF.
     returns (path to main | None, log)"""
-    d = copy_src()
+    d = copy_src("src_san" if sanitize else "src")
     flags = "-g0 -O1 -std=c++17 -I. -Isrc -Isrc/backend/interpreter -D%s" % GUARD
     tag = "main"
     if sanitize:
